@@ -109,6 +109,7 @@ type WatchCall struct {
 	RV      string
 	Outcome string
 	Sent    []int // resource versions of frames delivered on this session
+	Floor   int   // highest version any subscriber had already received when the call was made
 	Ended   bool
 }
 
@@ -141,6 +142,7 @@ type Server struct {
 	// WatchMode: "" normal | "error" every connect fails | "hang" every connect
 	// blocks until its context is cancelled | "silent" connects, never sends
 	WatchMode string
+	OnWatch   func(*WatchCall)
 }
 
 func NewServer(kind string) *Server {
@@ -363,6 +365,9 @@ func (c *conn) Stop() {
 func (s *Server) Watch(ctx context.Context, opts metav1.ListOptions) (watch.Interface, error) {
 	call := &WatchCall{N: len(s.Watches) + 1, At: detsim.Elapsed(), RV: opts.ResourceVersion, Outcome: "open"}
 	s.Watches = append(s.Watches, call)
+	if s.OnWatch != nil {
+		s.OnWatch(call)
+	}
 	detsim.Note("watch#%d connect rv=%s", call.N, opts.ResourceVersion)
 	switch s.WatchMode {
 	case "error":
